@@ -4,12 +4,13 @@
 // instrumented copies plus an overlay.json for `go build -overlay`.
 //
 // Spec file (one directive per line, '#' comments):
-//   instrument <pkgdir>...          rewrite sync/errgroup/go/chan/select/close in these packages
-//   time <pkgdir>...                additionally rewrite time.Now/Since/NewTicker/Sleep and context.WithTimeout
-//   lru <pkgdir>...                 rewrite the golang-lru import to the vlru shim
-//   watch <pkgdir> <Type.field>...  wrap reads/writes of these struct fields in vsched.R / vsched.W
-//   add <pkgdir> <harness-relative file>   add a file (tag verif) to a repo package
-//   shims                           map harness/zzverif/* into the repo module (implied by instrument)
+//
+//	instrument <pkgdir>...          rewrite sync/errgroup/go/chan/select/close in these packages
+//	time <pkgdir>...                additionally rewrite time.Now/Since/NewTicker/Sleep and context.WithTimeout
+//	lru <pkgdir>...                 rewrite the golang-lru import to the vlru shim
+//	watch <pkgdir> <Type.field>...  wrap reads/writes of these struct fields in vsched.R / vsched.W
+//	add <pkgdir> <harness-relative file>   add a file (tag verif) to a repo package
+//	shims                           map harness/zzverif/* into the repo module (implied by instrument)
 //
 // Any construct it cannot express makes it exit non-zero (infrastructure error,
 // never a verdict).
@@ -226,17 +227,18 @@ func main() {
 }
 
 type rewriter struct {
-	fset     *token.FileSet
-	sp       *spec
-	pkgdir   string
-	doTime   bool
-	doLRU    bool
-	watch    map[string]bool
-	watchHit map[string]bool
-	files    []*ast.File
-	info     *types.Info
-	needs    map[string]bool // shim imports needed by the current file
-	tmpN     int
+	fset      *token.FileSet
+	sp        *spec
+	pkgdir    string
+	doTime    bool
+	doLRU     bool
+	watch     map[string]bool
+	watchHit  map[string]bool
+	files     []*ast.File
+	info      *types.Info
+	needs     map[string]bool // shim imports needed by the current file
+	tmpN      int
+	generated map[ast.Expr]bool // expressions produced by rewriteWatched (their operand is a non-channel field)
 }
 
 func (rw *rewriter) load(lp *listPkg, imp types.Importer) {
@@ -372,6 +374,8 @@ func (rw *rewriter) rewriteFile(f *ast.File) bool {
 			if rw.isChan(n.X) {
 				c.Replace(rw.rewriteRangeChan(n))
 				changed = true
+			} else if rw.generated[n.X] {
+				// a watch wrapper around a (non-channel) field: plain range
 			} else if !rw.typeKnown(n.X) {
 				die("%s: cannot determine the type of the range operand (type check incomplete)", rw.fset.Position(n.Pos()))
 			}
@@ -645,7 +649,17 @@ func (rw *rewriter) rewriteWatched(c *astutil.Cursor, n *ast.SelectorExpr, w str
 	}
 	rw.watchHit[w] = true
 	rw.needs["vsched"] = true
-	c.Replace(&ast.ParenExpr{X: &ast.StarExpr{X: call("vsched", fn, &ast.UnaryExpr{Op: token.AND, X: n}, strLit(w))}})
+	if tv, ok := rw.info.Types[n]; ok && tv.Type != nil {
+		if _, isChan := tv.Type.Underlying().(*types.Chan); isChan {
+			die("%s: watch-listed field %s is a channel; not supported", rw.fset.Position(n.Pos()), w)
+		}
+	}
+	wrapped := &ast.ParenExpr{X: &ast.StarExpr{X: call("vsched", fn, &ast.UnaryExpr{Op: token.AND, X: n}, strLit(w))}}
+	if rw.generated == nil {
+		rw.generated = map[ast.Expr]bool{}
+	}
+	rw.generated[wrapped] = true
+	c.Replace(wrapped)
 	return true
 }
 
